@@ -127,8 +127,21 @@ def seeded_family(seed, index):
     regs = [[m] for m in rng.sample(mids, rng.randint(2, len(mids)))]
     corpus = gen.gen_corpus(rng, spec, FEAT)
     extras = make_extras(rng, spec, regs, 3)
-    return {"label": f"seed:{s}", "spec": spec, "regs": regs, "corpus": corpus, "extras": extras,
-            "rng_state": rng.getrandbits(48)}
+    fam = {"label": f"seed:{s}", "spec": spec, "regs": regs, "corpus": corpus, "extras": extras,
+           "rng_state": rng.getrandbits(48)}
+    if rng.random() < 0.25 and len(regs) >= 2 \
+            and not any(spec["methods"][r[0]]["body"][0] == "fnext" for r in regs):
+        # the function is a combination of two parents (mixins); one method of the first parent has
+        # a twin of identical signature in the second (the later mixin's is the one that counts)
+        k = rng.randint(1, len(regs) - 1)
+        src = regs[rng.randrange(k)][0]
+        twin = src + "w"
+        t = json.loads(json.dumps(spec["methods"][src]))
+        t["body"] = ["leaf"]
+        t.pop("factory", None)
+        spec["methods"][twin] = t
+        fam["mixins"] = {"split": k, "twin": twin}
+    return fam
 
 
 def gen_config(rng, fam):
@@ -136,7 +149,7 @@ def gen_config(rng, fam):
     dims = rng.sample(["order", "regs", "extras"], rng.randint(1, 3))
     if "order" in dims:
         cfg["order"] = {"seed": rng.getrandbits(32)}
-    if "regs" in dims:
+    if "regs" in dims and not fam.get("mixins"):
         cfg["regs"] = perm_regs(rng, fam["spec"], fam["regs"])
     if "extras" in dims:
         cfg["extras"] = rng.sample(fam["extras"], rng.randint(1, len(fam["extras"])))
@@ -149,6 +162,17 @@ def coarse(o):
     ambiguity error (that list is 'the first maximal candidate plus whatever it does not dominate')."""
     if o[0] == "err" and o[2][0] == "ambiguous":
         return [o[0], o[1], ["ambiguous"]]
+    if o[0] == "err" and o[2][0] == "nomethod" and len(o[2]) > 1:
+        # the message lists keyword arguments in the order of the lookup key, which follows the
+        # order in which the methods declared them: compare as a set
+        body = o[2][1][1:-1] if o[2][1].startswith("[") and o[2][1].endswith("]") else o[2][1]
+        return [o[0], o[1], ["nomethod", sorted(body.split(", "))]]
+    if o[0] == "err" and o[2][0] == "shape" and len(o[2]) > 1:
+        # "missing ... keyword-only arguments: 'k0' and 'k1'": the names come in declaration order
+        import re
+
+        names = sorted(re.findall(r"'(\w+)'", o[2][1]))
+        return [o[0], o[1], ["shape", re.sub(r"'\w+'", "'_'", o[2][1]), names]]
     return o
 
 
@@ -172,8 +196,22 @@ def outcome_vector(fam, cfg):
         regs = regs[:mid] + extras + regs[mid:]
     else:
         regs = regs + extras
-    h = Harness(fam["spec"], regs)
-    vec = [coarse(o) for o in h.probes(fam["corpus"])]
+    mx = fam.get("mixins")
+    if mx and not (cfg and cfg.get("regs")):
+        w = World(fam["spec"])
+        base = [list(r) for r in fam["regs"]]
+        rest = [r for r in regs if r not in base]  # the extras of this configuration
+        w.new_func("p1")
+        for r in base[: mx["split"]]:
+            w.register("p1", r[0], r[1] if len(r) > 1 else None)
+        w.new_func("p2")
+        for r in base[mx["split"]:] + [[mx["twin"]]] + rest:
+            w.register("p2", r[0], r[1] if len(r) > 1 else None)
+        w.new_func("f", mixins=("p1", "p2"), main=True)
+        vec = [coarse(w.call("f", c)) for c in fam["corpus"]]
+    else:
+        h = Harness(fam["spec"], regs)
+        vec = [coarse(o) for o in h.probes(fam["corpus"])]
     applied = list(ctl.applied)
     eff = dict(ctl.effective)
     ctl.permute = None
